@@ -2453,7 +2453,11 @@ def reset_data(m: types.Model, d: types.Data, reset: Optional[wp.array] = None):
   sleep_enabled = bool(m.opt.enableflags & types.EnableBit.SLEEP)
 
   @wp.kernel(module="unique", enable_backward=False, grid_stride=False)
-  def reset_xfrc_applied(reset_in: wp.array[bool], xfrc_applied_out: wp.array2d[wp.spatial_vector]):
+  def reset_xfrc_applied(
+    reset_in: wp.array[bool],
+    xfrc_applied_out: wp.array2d[wp.spatial_vector],
+    cvel_out: wp.array2d[wp.spatial_vector],
+  ):
     worldid, bodyid, elemid = wp.tid()
 
     if wp.static(reset is not None):
@@ -2461,6 +2465,8 @@ def reset_data(m: types.Model, d: types.Data, reset: Optional[wp.array] = None):
         return
 
     xfrc_applied_out[worldid, bodyid][elemid] = 0.0
+    # read by the equality rows of make_constraint before com_vel recomputes it
+    cvel_out[worldid, bodyid][elemid] = 0.0
 
   @wp.kernel(module="unique", enable_backward=False, grid_stride=False)
   def reset_M(reset_in: wp.array[bool], M_out: wp.array2d[float]):
@@ -2509,6 +2515,7 @@ def reset_data(m: types.Model, d: types.Data, reset: Optional[wp.array] = None):
     qfrc_applied_out: wp.array2d[float],
     eq_active_out: wp.array2d[bool],
     qacc_out: wp.array2d[float],
+    cdof_dot_out: wp.array2d[wp.spatial_vector],
     act_dot_out: wp.array2d[float],
     userdata_out: wp.array2d[float],
     sensordata_out: wp.array2d[float],
@@ -2541,6 +2548,7 @@ def reset_data(m: types.Model, d: types.Data, reset: Optional[wp.array] = None):
         qacc_warmstart_out[worldid, i] = 0.0
         qfrc_applied_out[worldid, i] = 0.0
         qacc_out[worldid, i] = 0.0
+        cdof_dot_out[worldid, i] = wp.spatial_vector(0.0, 0.0, 0.0, 0.0, 0.0, 0.0)
     for i in range(nu):
       ctrl_out[worldid, i] = 0.0
     for i in range(na):
@@ -2696,7 +2704,7 @@ def reset_data(m: types.Model, d: types.Data, reset: Optional[wp.array] = None):
   else:
     raise ValueError(f"reset must be None or a wp.array, got {type(reset)}.")
 
-  wp.launch(reset_xfrc_applied, dim=(d.nworld, m.nbody, 6), inputs=[reset_input], outputs=[d.xfrc_applied])
+  wp.launch(reset_xfrc_applied, dim=(d.nworld, m.nbody, 6), inputs=[reset_input], outputs=[d.xfrc_applied, d.cvel])
   wp.launch(
     reset_M,
     dim=(d.nworld, d.M.shape[1]),
@@ -2789,6 +2797,7 @@ def reset_data(m: types.Model, d: types.Data, reset: Optional[wp.array] = None):
       d.qfrc_applied,
       d.eq_active,
       d.qacc,
+      d.cdof_dot,
       d.act_dot,
       d.userdata,
       d.sensordata,
